@@ -172,8 +172,26 @@ def norm_dom(d):
         v = d[1]
         if isinstance(v, tuple) and v[0] == "vec" and len(v[1]) == 1 and v[1][0][0] in ("seg", "fill"):
             return norm_dom(v[1][0][1] if v[1][0][0] == "seg" else ("count", v[1][0][1]))
+        if isinstance(v, tuple) and v[0] == "vec" and len(v[1]) > 1 and all(s_[0] == "seg" for s_ in v[1]):
+            doms = {norm_dom(s_[1]) for s_ in v[1]}
+            conds = [s_[3] for s_ in v[1]]
+            # segments pushed on the complementary branches of one loop iteration: one element per iteration
+            if len(doms) == 1 and all(c_ is not None for c_ in conds) and exhaustive_conds(conds):
+                return next(iter(doms))
         return d
     return d
+
+
+def exhaustive_conds(conds):
+    """conds of sibling branches: c, ("not", c) / ("else", (...)) chains"""
+    base = [c for c in conds if not (isinstance(c, tuple) and c and c[0] in ("else", "not"))]
+    rest = [c for c in conds if isinstance(c, tuple) and c and c[0] in ("else", "not")]
+    if len(rest) != 1:
+        return False
+    r = rest[0]
+    if r[0] == "not":
+        return len(base) == 1 and r[1] == base[0]
+    return set(r[1]) == set(base) or set(base) <= set(r[1])
 
 
 class Interp:
@@ -721,7 +739,7 @@ class Interp:
             return ("stream", ("iter", t), ("elem", t), ())
         if t[0] == "range":
             return ("stream", t, ("idx", t), ())
-        if t[0] in ("in", "fld", "payload", "app", "try"):
+        if t[0] in ("in", "fld", "payload", "app", "try", "rd"):
             return ("stream", ("iter", t), ("elem", t), ())
         if t[0] == "st" and t[1].startswith("core::ops::range::Range"):
             d = dict(t[2])
@@ -786,6 +804,8 @@ class Interp:
             path = f.get("inst") or f.get("def")
             if res.startswith("Ctor"):
                 args = [self.eval(a, env) for a in n["args"]]
+                if path in ("alloc::borrow::Cow::Borrowed", "alloc::borrow::Cow::Owned") and len(args) == 1:
+                    return args[0]
                 if f.get("ctor_of") == "Struct" or self.prog.adts.get(path, {}).get("kind") == "Struct":
                     adt = self.prog.adts.get(path)
                     if adt:
@@ -982,9 +1002,12 @@ class Interp:
         # workspace From impl: inline
         if path and path in self.prog.fns and self.prog.fns[path].crate in core.LIB_CRATES:
             return self.call_path(path, [v])
-        imp = self.prog.fns.get(f"<{tgt_ty} as core::convert::From<{src_ty}>>::from")
-        if imp is not None:
-            return self.call_path(imp.path, [v])
+        for st_ in (src_ty, "&" + src_ty, "&'a " + src_ty, src_ty.replace("&", "")):
+            imp = self.prog.fns.get(f"<{tgt_ty} as core::convert::From<{st_}>>::from")
+            if imp is not None:
+                return self.call_path(imp.path, [v])
+        if v[0] == "var" and v[1] in ("alloc::borrow::Cow::Borrowed", "alloc::borrow::Cow::Owned") and len(v[2]) == 1:
+            return self.convert(v[2][0], src_ty, tgt_ty, path, n)
         if tgt_ty.startswith("alloc::string::String") or tgt_ty in ("alloc::vec::Vec<u8>", "ustr::Ustr", "alloc::borrow::Cow<'_, str>"):
             return v
         return ("app", f"into<{core.short(tgt_ty)}>", (v,))
